@@ -81,6 +81,17 @@ func (c *ctx) connInfo(id int) winfo {
 func (c *ctx) refConn(d model.Doc, i int) {
 	cs := &c.p.Scen.Clients[i]
 	id := i + 1
+	if cs.Tag == "control" {
+		// a control client performs a known-good exchange next to hostile clients: any
+		// deviation on its connection is also a violation of C14
+		n0 := len(c.out)
+		defer func() {
+			for _, v := range c.out[n0:] {
+				c.vs("C14/control-client-disturbed", v.Class, "control client on conn %d: %s", id, v.Detail)
+				break
+			}
+		}()
+	}
 	w := c.connInfo(id)
 	if !w.gotGet {
 		return // never accepted (run ended first)
